@@ -234,101 +234,225 @@ def path_writes(F, E, fn):
 
 
 def link_rules(run, F, E):
+    """C10.b on effect summaries: linkTask appends at the tail (or starts the list), remove unlinks exactly the given node -- the
+    neighbours are joined, the bounds move when the node was first / last, the node's own links are reset and its slot is released --
+    per combination of the entry-state comparisons the function branches on. Index expressions that differ syntactically are taken to
+    denote different nodes (a node is never its own neighbour: the list invariant, see the residue of C10)."""
+    from lint import symeval
+    from lint.symeval import Sym, Opaque, ObjRef
+    INV = 255
+
+    def mk(asm):
+        tasks = ObjRef({'_vacantHead': Sym('vh'), '_vacantTail': Sym('vt'), '_last': Sym('tlast'), '_count': Sym('tcount')}, ['_items'], 'tasks')
+        pd = ObjRef({'taskLinks': ObjRef({}, ['_items'], 'taskLinks'), 'tasks': tasks, 'planExists': 1}, [])
+        ev = symeval.Eval(F, {'_bounds': ObjRef({'first': Sym('first'), 'last': Sym('last')}, []), '_planData': pd}, [], asm)
+        ev.distinct_indices = True
+        return ev
+
+    def truth(dec, op, a, b):
+        neg = {'==': '!=', '!=': '==', '<': '>=', '>=': '<', '>': '<=', '<=': '>'}
+        for (o, x, y), v in dec.items():
+            if (o, x, y) == (op, a, b):
+                return v
+            if (neg[o], x, y) == (op, a, b):
+                return not v
+        return None
+
+    def links(stores):
+        m = {}
+        for a, i, v in stores:
+            if a.startswith('taskLinks.'):
+                m[(a.replace('..', '.').split('.')[-1], i)] = v
+        return m
+    I = Sym('index')
     for fn in F.find('PlanT', 'linkTask'):
-        paths = path_writes(F, E, fn)
-        ok = True
-        det = []
-        seen = {'empty': 0, 'nonempty': 0, 'invalid': 0}
-        for dec, ws in paths:
-            d = dict(dec)
-            if d.get('(index != 255)') == 'F':
-                seen['invalid'] += 1
-                if ws:
+        try:
+            paths = symeval.explore(mk, fn, [I], limit=32)
+        except symeval.Refuse as ex:
+            raise AnalysisBroken('PlanT::linkTask is outside the offset-domain fragment: %s' % ex)
+        bad = None
+        kinds = set()
+        for dec, sm in paths:
+            b_ = sm.fields['_bounds'].fields
+            lm = links(sm.stores)
+            valid = truth(dec, '!=', I, INV)
+            if valid is None:
+                valid = truth(dec, '<', I, cap_of(F, fn))
+            if valid is False:
+                kinds.add('invalid')
+                ok = not sm.stores and b_ == {'first': Sym('first'), 'last': Sym('last')} and sm.ret in (0, False)
+            elif valid is True:
+                empty = truth(dec, '==', Sym('first'), INV)
+                if empty is True:
+                    kinds.add('empty')
+                    ok = not lm and b_ == {'first': I, 'last': I} and sm.ret in (1, True)
+                elif empty is False:
+                    kinds.add('nonempty')
+                    ok = lm == {('next', Sym('last')): I, ('prev', I): Sym('last')} and b_ == {'first': Sym('first'), 'last': I} and sm.ret in (1, True)
+                else:
                     ok = False
-                    det.append(('invalid', ws))
-                continue
-            if d.get('(_bounds.first == 255)') == 'T':
-                seen['empty'] += 1
-                if sorted(ws) != [('_bounds.first', 'index'), ('_bounds.last', 'index')]:
-                    ok = False
-                    det.append(('empty', ws))
-            elif d.get('(_bounds.first == 255)') == 'F':
-                seen['nonempty'] += 1
-                want = {('_planData.taskLinks[_bounds.last].next', 'index'), ('_planData.taskLinks[index].prev', '_bounds.last'), ('_bounds.last', 'index')}
-                if set(ws) != want or len(ws) != 3 or ws[-1] != ('_bounds.last', 'index'):
-                    ok = False
-                    det.append(('nonempty', ws))
             else:
-                raise AnalysisBroken('PlanT::linkTask: unrecognised branch structure %s' % dec)
-        ok = ok and all(v >= 1 for v in seen.values())
-        run.ob('C10.b', 'PlanT::linkTask appends at the tail: empty -> first=last=index; else last.next=index, index.prev=last, last=index (bound updated last)',
-               ok, where=fn.pat, detail=det[:2] or None, key='PlanT::linkTask does not append at the tail')
-    for fn in F.find('PlanT', 'remove'):
-        paths = path_writes(F, E, fn)
-        ok = len(paths) == 4
-        det = []
-        L = '_planData.taskLinks[index]'
-        for dec, ws in paths:
-            d = dict(dec)
-            has_prev = d.get('(%s.prev < %s)' % (L, cap_of(F, fn)))
-            has_next = d.get('(%s.next < %s)' % (L, cap_of(F, fn)))
-            if has_prev is None or has_next is None:
-                raise AnalysisBroken('PlanT::remove: unrecognised neighbour tests %s' % dec)
-            want = []
-            want.append(('_planData.taskLinks[%s.prev].next' % L, '%s.next' % L) if has_prev == 'T' else ('_bounds.first', '%s.next' % L))
-            want.append(('_planData.taskLinks[%s.next].prev' % L, '%s.prev' % L) if has_next == 'T' else ('_bounds.last', '%s.prev' % L))
-            want += [('%s.prev' % L, '255'), ('%s.next' % L, '255')]
-            if ws[:2] != want[:2] or sorted(ws[2:]) != sorted(want[2:]):
                 ok = False
-                det.append((dec, ws))
-        c = cfgmod.cfg_of(fn)
-        rel = c.events(('call',), lambda n: n.e.get('m') == 'remove')
-        ok = ok and len(rel) == 1 and c.postdominates(rel[0], c.entry) and not any(c.dominates(rel[0], w) for w in c.events(('write',))) and \
-            ir.strip(rel[0].e['args'][0]).get('pi') == 0
-        run.ob('C10.b', 'PlanT::remove unlinks the task in all four neighbour cases, resets its link and releases the slot last', ok, where=fn.pat,
-               detail=det[:1] or None, key='PlanT::remove does not unlink correctly')
+            if not ok:
+                bad = bad or {'decisions': repr(dec), 'links written': repr(lm), 'bounds': repr(b_), 'returns': repr(sm.ret)}
+        run.ob('C10.b', 'PlanT::linkTask: an invalid index links nothing and reports false; otherwise the task becomes the list (empty plan) or is appended '
+               'behind the old tail (%d paths)' % len(paths), bad is None and kinds == {'invalid', 'empty', 'nonempty'}, where=fn.pat, detail=bad,
+               key='PlanT::linkTask does not append at the tail')
+    for fn in F.find('PlanT', 'remove'):
+        cap = cap_of(F, fn) or (F.rec_by_name.get(fn.cls) or {}).get('consts', {}).get('TASK_CAPACITY')
+        try:
+            paths = symeval.explore(mk, fn, [I], limit=64)
+        except symeval.Refuse as ex:
+            raise AnalysisBroken('PlanT::remove is outside the offset-domain fragment: %s' % ex)
+        P = Opaque(('entry', 'taskLinks._items.prev', I))
+        N = Opaque(('entry', 'taskLinks._items.next', I))
+        bad = None
+        seen = set()
+        for dec, sm in paths:
+            b_ = sm.fields['_bounds'].fields
+            lm = links(sm.stores)
+            tf = sm.fields['_planData'].fields['tasks'].fields
+            hp = truth(dec, '<', P, cap)
+            hn = truth(dec, '<', N, cap)
+            if hp is None:
+                hp = truth(dec, '!=', P, INV)
+            if hn is None:
+                hn = truth(dec, '!=', N, INV)
+            want = {('prev', I): INV, ('next', I): INV}
+            wb = {'first': Sym('first'), 'last': Sym('last')}
+            if hp:
+                want[('next', P)] = N
+            else:
+                wb['first'] = N
+            if hn:
+                want[('prev', N)] = P
+            else:
+                wb['last'] = P
+            ok = hp is not None and hn is not None and lm == want and b_ == wb and tf.get('_count') == Sym('tcount', -1) and tf.get('_vacantHead') == I
+            seen.add((hp, hn))
+            if not ok:
+                bad = bad or {'has predecessor': hp, 'has successor': hn, 'links written': repr(lm), 'expected': repr(want), 'bounds': repr(b_), 'pool': repr(tf)}
+        run.ob('C10.b', 'PlanT::remove unlinks exactly the given task in all four neighbour situations, resets its links and releases its slot (%d paths)' % len(paths),
+               bad is None and seen == {(True, True), (True, False), (False, True), (False, False)}, where=fn.pat, detail=bad,
+               key='PlanT::remove does not unlink correctly')
 
 
 def cap_of(F, fn):
     rec = F.rec_by_name.get(fn.cls) or {}
-    return rec.get('consts', {}).get('TASK_CAPACITY')
+    cap = rec.get('consts', {}).get('TASK_CAPACITY')
+    if cap is None and fn.cls and '::' in fn.cls:
+        outer = F.rec_by_name.get(fn.cls.rsplit('::', 1)[0]) or {}       # nested iterator class: the plan's capacity
+        cap = outer.get('consts', {}).get('TASK_CAPACITY')
+    return cap
 
 
 ITER_TKEYS = ['CPlanT::Iterator', 'PlanT::CIterator', 'PlanT::Iterator']
 
 
 def iterator_rules(run, F, E):
-    texts = {}
+    """C10.d/e on effect summaries: the plan iterator caches the successor of the task it stands on *before* that task can be removed,
+    advances to the cached successor, and reads the successor link of a valid position only."""
+    from lint import symeval
+    from lint.symeval import Sym, Opaque, Elem, ObjRef
+
+    def plan():
+        pd = ObjRef({'taskLinks': ObjRef({}, ['_items'], 'taskLinks'), 'tasks': ObjRef({'_count': Sym('tcount')}, ['_items'], 'tasks')}, [])
+        return ObjRef({'_bounds': ObjRef({'first': Sym('first'), 'last': Sym('last')}, []), '_planData': pd}, [])
+
+    def link_next(i):
+        return Opaque(('entry', 'taskLinks._items.next', i))
+
+    def explore(fn, ctor=False):
+        try:
+            if ctor:
+                out = []
+                pending = symeval.explore.__wrapped__ if hasattr(symeval.explore, '__wrapped__') else None
+                # constructors: same exploration, through run_ctor
+                res = []
+                stack = [[]]
+                while stack:
+                    prefix = stack.pop()
+                    taken, decisions = [], {}
+
+                    def assume(op, a_, b_, prefix=prefix, taken=taken, decisions=decisions):
+                        key = (op, a_, b_)
+                        if key in decisions:
+                            return decisions[key]
+                        i = len(taken)
+                        d = prefix[i] if i < len(prefix) else False
+                        if i >= len(prefix):
+                            stack.append(taken[:] + [True])
+                        taken.append(d)
+                        decisions[key] = d
+                        return d
+                    P = plan()
+                    ev = symeval.Eval(F, {'_plan': Opaque('unbound'), '_curr': Opaque('uninit'), '_next': Opaque('uninit')}, [], assume)
+                    res.append((decisions, ev.run_ctor(fn, [P])))
+                return res
+            return symeval.explore(lambda asm: symeval.Eval(F, {'_plan': plan(), '_curr': Sym('curr'), '_next': Sym('next')}, [], asm), fn, [], limit=32)
+        except symeval.Refuse as ex:
+            raise AnalysisBroken('%s is outside the offset-domain fragment: %s' % (fn.short, ex))
+
+    def valid(dec, sym, cap):
+        """did the path decide `sym` to be a valid task index?"""
+        for (o, x, y), v in dec.items():
+            if x == sym and y == cap and o == '<':
+                return v
+            if x == sym and y == cap and o == '>=':
+                return not v
+            if x == sym and y == 255 and o == '!=':
+                return v
+            if x == sym and y == 255 and o == '==':
+                return not v
+        return None
+    sig = {}
     for tk in ITER_TKEYS:
         for fn in F.find(tk, 'operator++'):
-            c = cfgmod.cfg_of(fn)
-            ws = c.events(('write',))
-            seq = [(ir.pp(ir.strip(n.e['l'])), ir.pp(ir.strip(n.e['r']))) for n in ws if n.e.get('k') == 'asg']
-            ok = seq == [('_curr', '_next'), ('_next', 'next()')] and c.dominates(ws[0], ws[1])
-            run.ob('C10.d', '%s::operator++ = (_curr := _next; _next := next())' % tk, ok, where=fn.pat, detail=seq,
+            cap = cap_of(F, fn)
+            paths = explore(fn)
+            ok = len(paths) == 2
+            for dec, sm in paths:
+                v = valid(dec, Sym('next'), cap)
+                want_next = link_next(Sym('next')) if v else 255
+                ok = ok and v is not None and sm.fields.get('_curr') == Sym('next') and sm.fields.get('_next') == want_next and not sm.stores
+            run.ob('C10.d', '%s::operator++ moves to the cached successor and caches that one\'s successor (invalid past the end), reading no link of the task it leaves' % tk,
+                   ok, where=fn.pat, detail=None if ok else [(repr(d), repr(m.fields.get('_curr')), repr(m.fields.get('_next'))) for d, m in paths],
                    key='%s::operator++ re-reads the link of the current (possibly removed) task' % tk)
-            texts.setdefault('operator++', {})[tk] = re.sub(r'\s+', ' ', ir.pp_stmt(fn.body))
+            sig.setdefault('operator++', {})[tk] = sorted((repr(sorted(map(repr, d.items()))), repr(m.fields.get('_curr')), repr(m.fields.get('_next'))) for d, m in paths)
         for fn in F.find(tk, 'next'):
-            txt = re.sub(r'\s+', ' ', ir.pp_stmt(fn.body))
-            texts.setdefault('next', {})[tk] = txt
-            rets = [ir.pp(ir.strip(s['e'])) for s in ir.walk_stmts(fn.body) if s.get('s') == 'ret']
-            decls = E.decls(fn)
-            ok = len(rets) == 2 and rets[1] in ('255', 'INVALID_LONG(255)')
-            link = [v for v in decls.values() if v['n'] == 'link']
-            ok = ok and len(link) == 1 and ir.pp(ir.strip(link[0]['init'])) == '_plan._planData.taskLinks[_curr]' and rets[0] == 'link.next'
-            run.ob('C10.d', '%s::next() is the successor link of the current task (invalid at the end)' % tk, ok, where=fn.pat, detail=rets,
-                   key='%s::next() does not return the successor' % tk)
+            cap = cap_of(F, fn)
+            paths = explore(fn)
+            ok = len(paths) == 2
+            for dec, sm in paths:
+                v = valid(dec, Sym('curr'), cap)
+                ok = ok and v is not None and sm.ret == (link_next(Sym('curr')) if v else 255) and not sm.stores and sm.fields.get('_curr') == Sym('curr')
+            run.ob('C10.d', '%s::next() is the successor link of the current task (invalid at the end)' % tk, ok, where=fn.pat,
+                   detail=None if ok else [(repr(d), repr(m.ret)) for d, m in paths], key='%s::next() does not return the successor' % tk)
+            sig.setdefault('next', {})[tk] = sorted((repr(sorted(map(repr, d.items()))), repr(m.ret)) for d, m in paths)
         for fn in F.find(tk, 'operator bool'):
-            texts.setdefault('operator bool', {})[tk] = re.sub(r'\s+', ' ', ir.pp_stmt(fn.body))
+            cap = cap_of(F, fn)
+            paths = explore(fn)
+            r = paths[0][1].ret if len(paths) == 1 else None
+            ok = isinstance(r, Opaque) and isinstance(r.tag, tuple) and r.tag[0] == 'cmp' and \
+                (r.tag[1:] == ('<', Sym('curr'), cap) or (r.tag[1] == '!=' and set(r.tag[2:]) == {Sym('curr'), 255}))
+            run.ob('C10.d', '%s::operator bool() == (the position is a valid task index)' % tk, ok, where=fn.pat, detail=repr(r),
+                   key='%s::operator bool is not "position valid"' % tk)
+            sig.setdefault('operator bool', {})[tk] = repr(r)
         for fn in F.find(tk):
+            if fn.m in ('operator*', 'operator->') and not fn.d.get('implicit'):
+                paths = explore(fn)
+                ok = all(sm.ret == Elem('tasks._items', Sym('curr')) and not sm.stores for dec, sm in paths)
+                run.ob('C10.d', '%s::%s denotes the task at the position' % (tk, fn.m), ok, where=fn.pat, detail=repr([m.ret for d, m in paths]),
+                       key='%s::%s denotes another task' % (tk, fn.m))
             if fn.kind == 'ctor' and not fn.d.get('implicit') and fn.params:
-                inits = {i.get('name'): ir.pp(ir.strip(i['e'])) for i in fn.inits if i.get('written')}
-                body = [(ir.pp(ir.strip(e['l'])), ir.pp(ir.strip(e['r']))) for e in ir.all_exprs(fn) if e['k'] == 'asg']
-                nxt = inits.get('_next') or dict(body).get('_next')
-                ok = inits.get('_curr', '').endswith('_bounds.first') or inits.get('_curr', '') == '{plan._bounds.first}'
-                ok = ok and nxt in ('next()', '{next()}')
-                # _curr is initialised before next() is evaluated: it precedes _next in the class (declaration order) or next() runs in the body
-                run.ob('C10.d', '%s starts at the first task and caches its successor' % tk, ok, where=fn.pat, detail={'inits': inits, 'body': body},
+                cap = cap_of(F, fn)
+                paths = explore(fn, ctor=True)
+                ok = len(paths) == 2
+                for dec, sm in paths:
+                    v = valid(dec, Sym('first'), cap)
+                    ok = ok and v is not None and sm.fields.get('_curr') == Sym('first') and sm.fields.get('_next') == (link_next(Sym('first')) if v else 255)
+                run.ob('C10.d', '%s starts at the first task and caches its successor' % tk, ok, where=fn.pat,
+                       detail=None if ok else [(repr(d), repr(m.fields.get('_curr')), repr(m.fields.get('_next'))) for d, m in paths],
                        key='%s constructor does not start at the first task' % tk)
         for fn in F.find(tk, 'remove'):
             ws = E.writes_star(fn)
@@ -337,13 +461,13 @@ def iterator_rules(run, F, E):
             calls = [(e.get('m'), ir.pp(ir.strip(e['args'][0])) if e.get('args') else '') for e, g in E.call_sites(fn)]
             run.ob('C10.d', '%s::remove() removes the current task' % tk, calls == [('remove', '_curr')], where=fn.pat, detail=calls,
                    key='%s::remove() removes another task' % tk)
-    for what, d in texts.items():
-        d = {k: re.sub(r'TASK_CAPACITY\(\d+\)', 'TASK_CAPACITY', v) for k, v in d.items()}
+    for what, d in sig.items():
         if len(d) < 2:
             continue
-        vals = set(d.values())
+        vals = set(repr(v) for v in d.values())
         ok = len(vals) == 1
-        run.ob('C10.e', 'the three plan iterators have the same %s' % what, ok, detail=None if ok else d, key='the plan iterators disagree on %s' % what)
+        run.ob('C10.e', 'the three plan iterators have the same %s (compared on their effect summaries)' % what, ok, detail=None if ok else {k: repr(v)[:200] for k, v in d.items()},
+               key='the plan iterators disagree on %s' % what)
     for tk, m in (('PlanT', 'operator bool'), ('CPlanT', 'operator bool')):
         for fn in F.find(tk, m):
             rets = [ir.pp(ir.normalize(s['e'])) for s in ir.walk_stmts(fn.body) if s.get('s') == 'ret']
